@@ -323,7 +323,17 @@ class LogSpace(Structured):
         if npname in ('logsumexp', 'max', 'amax') and e.args:
             full = 'axis' not in kw and len(e.args) == 1
             inner = argforms[0]
-            return Form({(1, ('red', 'lse' if npname == 'logsumexp' else 'max', inner.terms, full))})
+            red = Form({(1, ('red', 'lse' if npname == 'logsumexp' else 'max', inner.terms, full))})
+            if npname == 'logsumexp' and 'b' in kw:
+                # logsumexp(x, b=B) with a scalar weight B is logsumexp(x) + log B:  B = T -> + log T,  B = 1/T -> - log T
+                B = kw['b']
+                if isinstance(B, (ast.Name, ast.Attribute)):
+                    return red.add(Form({(1, ("logt", U(B)))}))
+                if isinstance(B, ast.BinOp) and isinstance(B.op, ast.Div) and isinstance(B.left, ast.Constant) and B.left.value in (1, 1.0) \
+                        and isinstance(B.right, (ast.Name, ast.Attribute)):
+                    return red.add(Form({(1, ("logt", U(B.right)))}), -1)
+                return Form({(1, ('call', U(e)[:80]))})
+            return red
         if meth in ('logsumexp', 'max') and npname is None:
             inner = self.form(f.value, env, stmt)
             full = not e.args and 'axis' not in kw and 'attrs' not in kw
